@@ -276,43 +276,47 @@ func ruleFieldDispatch(c *Ctx) []Ob {
 		}
 		s.check(good, "success-return", c.InstrPos(ret), "returns position of STOP + 1", "a success return is not dominated by reading a STOP byte, or does not return the position just past it")
 	}
-	// GetField
+	// GetField: non-nil only when fid <= maxID and the index entry is >= 0; the index is read only when fid <= maxID
 	if gf := c.Func(pkgReflect, "(*structDesc).GetField"); gf != nil {
-		d, fid := gf.Params[0].Name(), gf.Params[1]
-		gtMax, ltZero, idx, ret := false, false, false, false
+		d, fid := gf.Params[0].Name(), gf.Params[1].Name()
+		var probs []string
+		nNonNil := 0
 		for _, b := range gf.Blocks {
 			for _, ins := range b.Instrs {
 				switch x := ins.(type) {
-				case *ssa.If:
-					bo, ok := x.Cond.(*ssa.BinOp)
-					if !ok {
-						continue
-					}
-					nilEdge := func(k int) bool {
-						r, ok := b.Succs[k].Instrs[len(b.Succs[k].Instrs)-1].(*ssa.Return)
-						return ok && isNilConst(r.Results[0])
-					}
-					if bo.Op == token.GTR && bo.X == ssa.Value(fid) && path(bo.Y) == d+".maxID" && nilEdge(0) {
-						gtMax = true
-					}
-					if bo.Op == token.LSS && nilEdge(0) {
-						if z, ok := constInt(bo.Y); ok && z == 0 && strings.HasPrefix(path(bo.X), d+".fieldIdx[") {
-							ltZero = true
+				case *ssa.IndexAddr:
+					if path(x.X) == d+".fieldIdx" {
+						if descInt(x.Index) != fid {
+							probs = append(probs, "fieldIdx is indexed by "+descInt(x.Index)+", not by the field id")
+						}
+						if !holdsAt(b, fid, "<=", d+".maxID", descInt) {
+							probs = append(probs, "fieldIdx[fid] is read without fid <= maxID (index out of range for unknown ids)")
 						}
 					}
-				case *ssa.IndexAddr:
-					if path(x.X) == d+".fieldIdx" && x.Index == ssa.Value(fid) {
-						idx = true
-					}
 				case *ssa.Return:
-					if strings.HasPrefix(path(x.Results[0]), d+".fields["+d+".fieldIdx[") {
-						ret = true
+					if isNilConst(x.Results[0]) {
+						continue
+					}
+					nNonNil++
+					rp := path(x.Results[0])
+					pre := d + ".fields[" + d + ".fieldIdx[" + fid + "]]"
+					if rp != pre && rp != d+".fields[conv("+d+".fieldIdx["+fid+"])]" {
+						probs = append(probs, "returns "+rp+", expected "+pre)
+						continue
+					}
+					if !holdsAt(b, fid, "<=", d+".maxID", descInt) {
+						probs = append(probs, "a field is returned without fid <= maxID")
+					}
+					if !holdsAt(b, "0", "<=", d+".fieldIdx["+fid+"]", descInt) {
+						probs = append(probs, "a field is returned without testing the index entry for the -1 sentinel")
 					}
 				}
 			}
 		}
-		s.check(gtMax && ltZero && idx && ret, "GetField", c.Pos(gf.Pos()), "nil for fid > maxID and for -1; otherwise fields[fieldIdx[fid]]",
-			fmt.Sprintf("GetField shape: fid>maxID->nil %v, idx<0->nil %v, indexes fieldIdx[fid] %v, returns fields[idx] %v", gtMax, ltZero, idx, ret))
+		if nNonNil == 0 {
+			probs = append(probs, "never returns a field")
+		}
+		s.check(len(probs) == 0, "GetField", c.Pos(gf.Pos()), "nil for fid > maxID and for -1; otherwise fields[fieldIdx[fid]]", "GetField: "+strings.Join(dedup(probs), "; "))
 	} else {
 		s.bad("GetField", "-", "not found")
 	}
@@ -320,39 +324,41 @@ func ruleFieldDispatch(c *Ctx) []Ob {
 	if ff := c.Func(pkgReflect, "(*structDesc).fromDefsFields"); ff != nil {
 		d := ff.Params[0].Name()
 		var mk *ssa.MakeSlice
+		for _, b := range ff.Blocks {
+			for _, ins := range b.Instrs {
+				if st, ok := ins.(*ssa.Store); ok && path(st.Addr) == d+".fieldIdx" {
+					if m, ok := st.Val.(*ssa.MakeSlice); ok {
+						mk = m
+					}
+				}
+			}
+		}
+		isIdxSlice := func(v ssa.Value) bool { return mk != nil && v == ssa.Value(mk) || path(v) == d+".fieldIdx" }
 		fillAll, setIdx, maxSet := false, false, false
 		for _, b := range ff.Blocks {
 			for _, ins := range b.Instrs {
-				switch x := ins.(type) {
-				case *ssa.MakeSlice:
-					for _, r := range referrers(x) {
-						if st, ok := r.(*ssa.Store); ok && path(st.Addr) == d+".fieldIdx" {
-							mk = x
-						}
+				st, ok := ins.(*ssa.Store)
+				if !ok {
+					continue
+				}
+				if path(st.Addr) == d+".maxID" {
+					maxSet = true
+				}
+				ia, ok := st.Addr.(*ssa.IndexAddr)
+				if !ok || !isIdxSlice(ia.X) {
+					continue
+				}
+				if v, ok := constInt(st.Val); ok && v == -1 {
+					if fullRangeIndex(ia.Index, isIdxSlice, mk) {
+						fillAll = true
 					}
-				case *ssa.Store:
-					p := path(x.Addr)
-					if strings.HasPrefix(p, d+".fieldIdx[") {
-						if v, ok := constInt(x.Val); ok && v == -1 {
-							// index must be the rangeindex of a range over d.fieldIdx
-							if ia, ok := x.Addr.(*ssa.IndexAddr); ok {
-								if isRangeIndexOver(ia.Index, d+".fieldIdx") {
-									fillAll = true
-								}
-							}
-						} else if strings.HasSuffix(p, ".ID]") || strings.Contains(p, ".ID)]") {
-							setIdx = true
-						}
-					}
-					if p == d+".maxID" {
-						maxSet = true
-					}
+				} else if strings.HasSuffix(descInt(ia.Index), ".ID") {
+					setIdx = true
 				}
 			}
 		}
 		okMk := false
 		if mk != nil {
-			// len = int(maxFieldID) + 1 computed in int
 			if bo, ok := mk.Len.(*ssa.BinOp); ok && bo.Op == token.ADD && c.Sizes.Sizeof(bo.Type()) >= 4 {
 				if one, ok := constInt(bo.Y); ok && one == 1 {
 					okMk = true
@@ -360,12 +366,44 @@ func ruleFieldDispatch(c *Ctx) []Ob {
 			}
 		}
 		s.check(okMk, "fieldIdx:size", c.Pos(ff.Pos()), "make([]int, maxID+1) with the addition done in int", "the dense index is not allocated with maxFieldID+1 entries computed without sub-word overflow")
-		s.check(fillAll, "fieldIdx:fill", c.Pos(ff.Pos()), "every slot of fieldIdx is initialised to -1 (range over the whole slice)", "fieldIdx is not filled with -1 over its whole length: an id without a field (e.g. 0) would resolve to field index 0")
+		s.check(fillAll, "fieldIdx:fill", c.Pos(ff.Pos()), "every slot of fieldIdx is initialised to -1 (loop over the whole slice)", "fieldIdx is not filled with -1 over its whole length: an id without a field (e.g. 0) would resolve to field index 0")
 		s.check(setIdx && maxSet, "fieldIdx:set", c.Pos(ff.Pos()), "fieldIdx[f.ID] = i and maxID recorded", "fieldIdx[f.ID] / maxID are not recorded")
 	} else {
 		s.bad("fromDefsFields", "-", "not found")
 	}
 	return s.obs
+}
+
+// fullRangeIndex: idx runs over every index of the slice: `for i := range s` or `for i := 0; i < len(s); i++`.
+func fullRangeIndex(idx ssa.Value, isSlice func(ssa.Value) bool, mk *ssa.MakeSlice) bool {
+	boundOK := func(y ssa.Value) bool {
+		if call, ok := y.(*ssa.Call); ok && isBuiltin(call, "len") && isSlice(call.Call.Args[0]) {
+			return true
+		}
+		return mk != nil && y == mk.Len
+	}
+	// range form: idx = rangeindex + 1, compared idx < len(s)
+	if bo, ok := idx.(*ssa.BinOp); ok && bo.Op == token.ADD {
+		if p, ok := bo.X.(*ssa.Phi); ok && p.Comment == "rangeindex" {
+			for _, r := range referrers(bo) {
+				if cmp, ok := r.(*ssa.BinOp); ok && cmp.Op == token.LSS && cmp.X == ssa.Value(bo) && boundOK(cmp.Y) {
+					return true
+				}
+			}
+		}
+		return false
+	}
+	// counted form: phi(0, phi+1) compared phi < len(s)
+	if p, ok := idx.(*ssa.Phi); ok && loopCounter(p) {
+		for _, r := range referrers(p) {
+			if cmp, ok := r.(*ssa.BinOp); ok && cmp.Op == token.LSS && cmp.X == ssa.Value(p) && boundOK(cmp.Y) {
+				if _, isIf := cmp.Block().Instrs[len(cmp.Block().Instrs)-1].(*ssa.If); isIf && cmp.Block() == p.Block() {
+					return true
+				}
+			}
+		}
+	}
+	return false
 }
 
 // isRangeIndexOver: v is the index variable of `for i := range <slicePath>`.
